@@ -154,6 +154,14 @@ def run(ck):
                     {"A": {"all(f)": [a, b]}, "condition": "A"}, {"A": {"f": [a, b, "foo*"]}, "condition": "not A"},
                     {"A": {"n": {"f": [a, b]}}, "condition": "A"}, {"A": {"f": a}, "condition": "A"}):
             big_cases.append({"k": "rule", "id": ck.new_id(), "rule": rule_text(det), "docs": [], "sw": [0]})
+    # the same for the needle automata (D38, repaired): aho-corasick refuses a DFA above 2^31 state slots,
+    # i.e. about 8.4 MB of needle text once more than 128 byte values occur
+    base = "".join(chr(c) for c in range(0x23, 0x7f) if chr(c) not in "*?'\"\\") + "".join(chr(c) for c in range(0xa1, 0x100))
+    long_text = (base * (8_400_000 // len(base.encode("utf-8")) + 1))
+    half = long_text[:len(long_text) // 2]
+    for det in ({"A": {"f": "i*" + long_text + "*"}, "condition": "A"}, {"A": {"f": "i" + long_text}, "condition": "A"},
+                {"A": {"f": ["*" + half + "*", "*" + half[1:] + "x*"]}, "condition": "A"}):
+        big_cases.append({"k": "rule", "id": ck.new_id(), "rule": rule_text(det), "docs": [], "sw": [0]})
     bout = lib.run_harness_only(big_cases, "C04big")
     for c in big_cases:
         evals += 1
@@ -161,7 +169,7 @@ def run(ck):
         ck.count("oversized_regex_set:" + ("panic" if "panic" in line else ("err" if "(load err)" in line else "ok")))
         if "panic" in line:
             if len(direct_failed) < 5:
-                ck.violation({"property": "C04", "kind": "direct", "what": "loading panicked on a list of regexes whose set exceeds the regex crate's size limit",
+                ck.violation({"property": "C04", "kind": "direct", "what": "loading panicked on regexes / needles whose set or automaton exceeds the size limit of the regex / aho-corasick crate",
                               "layer": "rule", "input": c["rule"][:200], "crate": line[:300], "replay_case": c})
             direct_failed.add(c["id"])
     ck.coverage["evaluations"] = evals
